@@ -50,6 +50,16 @@ theorem dump_after_program (env : Env Nat) (k : Nat) :
     dumpAfterProgram (exec env kernprofTail k).1 (exec env kernprofTail k).2.1 = true :=
   forall_env_of_check kernprofTail dumpAfterProgram (by decide +kernel) env k
 
+/-- with `-i`: the periodic timer is stopped *before* the final dump on every path (never after it) — together with
+    `C07.timers_stopped` (every started timer is stopped) and `C07.no_dump_after_stop` (no periodic dump is written once `stop()`
+    has returned) the final dump is the last write to the stats file (repair of F-C06e) -/
+def stopBeforeDump : Out → List Nat → Bool := fun _ log =>
+  (log.dropWhile (fun n => !dumpIds.contains n)).all fun n => !role_timer_stop.contains n
+
+theorem stop_before_final_dump (env : Env Nat) (k : Nat) :
+    stopBeforeDump (exec env kernprofTail k).1 (exec env kernprofTail k).2.1 = true :=
+  forall_env_of_check kernprofTail stopBeforeDump (by decide +kernel) env k
+
 /-- **C06 (wrappers).** `runctx`, `runcall`, the function wrapper and the coroutine wrapper pair every enable with a
     disable on every way out (return, exception, exit, interrupt) … -/
 theorem wrappers_close_bracket (env : Env Nat) (k : Nat) :
